@@ -303,12 +303,23 @@ def int_to_bytes(I, x, length, byteorder="big", signed=False):
     if not I.path.decide(z3.And(e >= 0, e < (1 << (8 * length)))):
         I.raise_py(OverflowError, "int too big to convert" )
     segs = []
-    for i in range(length):
-        sh = 8 * (length - 1 - i)
-        t = e / (1 << sh) if sh else e
-        if i > 0:
-            t = t % 256
-        segs.append(BSeg(z3.simplify(t)))
+    if length > 2 and not isinstance(x, int):
+        # base-256 digits as fresh octets o_i with x == sum o_i * 256^k (they exist and are unique for
+        # 0 <= x < 256^length): linear, where div/mod chains time out for 4..8 octets
+        octs = [I.path.fresh_int("oct") for _ in range(length)]
+        tot = z3.IntVal(0)
+        for o in octs:
+            I.path.assume(z3.And(o >= 0, o <= 255))
+            tot = tot * 256 + o
+        I.path.assume(e == tot)
+        segs = [BSeg(o) for o in octs]
+    else:
+        for i in range(length):
+            sh = 8 * (length - 1 - i)
+            t = e / (1 << sh) if sh else e
+            if i > 0:
+                t = t % 256
+            segs.append(BSeg(z3.simplify(t)))
     if byteorder == "little":
         segs.reverse()
     return SBytes(segs, False)
